@@ -1720,11 +1720,12 @@ fn unary_case(args: &[&str]) -> Res {
     use dashu_base::{DivRem, PowerOfTwo, SquareRootRem};
     let bad = || Err("bad-op mem.arith".to_string());
     let (op, form) = (args[0], args[1]);
-    let two = matches!(op, "idivrem" | "idiveuc" | "iremeuc" | "idivremeuc");
+    let two = matches!(op, "idivrem" | "idivremassign" | "idiveuc" | "iremeuc" | "idivremeuc");
     let signed = two || matches!(op, "ishl" | "ishr" | "ipow" | "inot");
     let ok_hex = |s: &str| hex_to_words(s.strip_prefix('-').unwrap_or(s)).is_some();
     let form_ok = match op {
         "idivrem" | "idiveuc" | "iremeuc" | "idivremeuc" => matches!(form, "rr" | "rv" | "vr" | "vv"),
+        "idivremassign" => matches!(form, "av" | "ar"),
         "ishl" | "ishr" => matches!(form, "v" | "r" | "a"),
         "inot" => matches!(form, "v" | "r"),
         "ipow" | "sqrtrem" | "sqrt" => form == "r",
@@ -1795,6 +1796,25 @@ fn unary_case(args: &[&str]) -> Res {
         };
     }
     let res: Result<Out, (String, String)> = match op {
+        "idivremassign" => {
+            // `DivRemAssign::div_rem_assign` of IBig (`impl_binop_assign_by_taking`: `let (a, b) = mem::take(self).div_rem(rhs);
+            // *self = a; b`): the quotient replaces the lhs, the remainder is returned
+            use dashu_base::DivRemAssign;
+            let mut x = a.take().unwrap();
+            if form == "av" {
+                let y = b.take().unwrap();
+                guarded(move || {
+                    let r = x.div_rem_assign(y);
+                    Out::II(x, r)
+                })
+            } else {
+                let y = b.as_ref().unwrap();
+                guarded(move || {
+                    let r = x.div_rem_assign(y);
+                    Out::II(x, r)
+                })
+            }
+        }
         "idiveuc" => {
             use dashu_base::DivEuclid;
             forms2!(div_euclid).map(Out::I)
@@ -2033,6 +2053,79 @@ fn divrem_case(args: &[&str]) -> Res {
     Ok(format!("{}|{} end:{}:live={}:dfree={}", head, ev, drops, live, dfree))
 }
 
+/// `mem.arith padd|psub|pmul|pdiv|por|pxor <v64|r64|v128|r128> <a> <b>`: `UBig op primitive` / `&UBig op primitive` with a `u64` /
+/// `u128` right operand (helper_macros.rs `impl_binop_with_primitive`: `self.op(UBig::from(rhs)).try_into().unwrap()`); the result
+/// with its layout, the allocator events of the call, then the drops
+fn prim_case(args: &[&str]) -> Res {
+    let bad = || Err("bad-op mem.arith".to_string());
+    let (op, form) = (args[0], args[1]);
+    if !matches!(form, "v64" | "r64" | "v128" | "r128") || hex_to_words(args[2]).is_none() {
+        return bad();
+    }
+    let p: u128 = match u128::from_str_radix(args[3], 16) {
+        Ok(p) => p,
+        Err(_) => return bad(),
+    };
+    let wide = form.ends_with("128");
+    if !wide && p > u64::MAX as u128 {
+        return bad();
+    }
+    let by_val = form.starts_with('v');
+    hist_begin(true);
+    let built = guarded(|| p_ubig(args[2]).unwrap());
+    clear_log();
+    let a = match built {
+        Ok(x) => x,
+        Err(_) => {
+            hist_end();
+            return bad();
+        }
+    };
+    let mut a = Some(a);
+    macro_rules! forms {
+        ($o:tt) => {
+            if by_val {
+                let x = a.take().unwrap();
+                if wide {
+                    guarded(move || x $o p)
+                } else {
+                    let q = p as u64;
+                    guarded(move || x $o q)
+                }
+            } else {
+                let x = a.as_ref().unwrap();
+                if wide {
+                    guarded(|| x $o p)
+                } else {
+                    let q = p as u64;
+                    guarded(|| x $o q)
+                }
+            }
+        };
+    }
+    let res: Result<UBig, (String, String)> = match op {
+        "padd" => forms!(+),
+        "psub" => forms!(-),
+        "pmul" => forms!(*),
+        "pdiv" => forms!(/),
+        "por" => forms!(|),
+        _ => forms!(^),
+    };
+    let ev = drain_events();
+    let head = match &res {
+        Ok(r) => head_ubig(r),
+        Err((msg, loc)) => format!("!{}", classify_panic(msg, loc)),
+    };
+    let _ = guarded(move || {
+        drop(res);
+        drop(a);
+    });
+    let drops = drain_sorted_drops();
+    let (live, dfree, _) = counters();
+    hist_end();
+    Ok(format!("{}|{} end:{}:live={}:dfree={}", head, ev, drops, live, dfree))
+}
+
 /// `mem.arith gcd|gcdext <form> <a> <b>` (UBig operands), `igcd|igcdext` (IBig operands), `gcd_ui|gcdext_ui` (UBig lhs, IBig rhs),
 /// `gcd_iu|gcdext_iu` (IBig lhs, UBig rhs): one `Gcd::gcd` / `ExtendedGcd::gcd_ext` call in one ownership form; the result(s) with
 /// their layout joined by `&`, the allocator events of the call, then the drops
@@ -2196,7 +2289,10 @@ pub fn arith_case(args: &[&str]) -> Res {
     if matches!(op, "divrem" | "divremeuc" | "diveuc" | "remeuc" | "divremassign") {
         return divrem_case(args);
     }
-    if matches!(op, "inot" | "idivrem" | "idiveuc" | "iremeuc" | "idivremeuc" | "ishl" | "ishr" | "ipow" | "setbit" | "clearbit" | "clearhigh" | "splitbits" | "nextpow2" | "sqrtrem" | "sqrt") {
+    if matches!(op, "padd" | "psub" | "pmul" | "pdiv" | "por" | "pxor") {
+        return prim_case(args);
+    }
+    if matches!(op, "inot" | "idivrem" | "idivremassign" | "idiveuc" | "iremeuc" | "idivremeuc" | "ishl" | "ishr" | "ipow" | "setbit" | "clearbit" | "clearhigh" | "splitbits" | "nextpow2" | "sqrtrem" | "sqrt") {
         return unary_case(args);
     }
     if op == "pow" {
